@@ -26,3 +26,46 @@ pub fn devices() -> i32 {
     }
     0
 }
+
+use avra_lib::context::{CommonContext, Context};
+use avra_lib::document::document;
+use avra_lib::instruction::operation::Operation;
+
+pub fn ctx_for(avr8l: bool) -> CommonContext {
+    let c = CommonContext::new();
+    if avr8l {
+        let d = DEVICES
+            .values()
+            .find(|d| d.is_avr8l())
+            .expect("no reduced-core device in the table")
+            .clone();
+        c.device.replace(Some(d));
+    }
+    c
+}
+
+/// stdin: one mnemonic spelling per line.
+/// stdout: spelling <TAB> Debug of the parsed Operation <TAB> len opcode (default core) <TAB> len opcode
+/// (reduced core) <TAB> number() of the branch type / flag, or -
+pub fn ops() -> i32 {
+    let full = ctx_for(false);
+    let red = ctx_for(true);
+    for name in crate::util::read_stdin().lines() {
+        let r = std::panic::catch_unwind(|| document::operation(name));
+        match r {
+            Ok(Ok(op)) => {
+                let a = op.info(&full as &dyn Context);
+                let b = op.info(&red as &dyn Context);
+                let sub = match &op {
+                    Operation::Br(t) => format!("{}", t.number()),
+                    Operation::Se(f) | Operation::Cl(f) => format!("{}", f.number()),
+                    _ => "-".to_string(),
+                };
+                println!("{}\t{:?}\t{} {}\t{} {}\t{}", name, op, a.len, a.op_code, b.len, b.op_code, sub);
+            }
+            Ok(Err(_)) => println!("{}\tNOPARSE", name),
+            Err(_) => println!("{}\tPANIC", name),
+        }
+    }
+    0
+}
